@@ -146,3 +146,9 @@ Definition agrees (world : list blob) (order : list N) : bool :=
 (* all 5040 arrival orders of the seven blobs, and all 720 orders in which the key never arrives *)
 Lemma w7_all_orders : forallb (agrees w7) (perms [1; 2; 3; 4; 5; 6; 7]) = true /\ forallb (agrees w7) (perms [2; 3; 4; 5; 6; 7]) = true.
 Proof. split; vm_compute; reflexivity. Qed.
+
+Lemma w7_sweep : forall order, In order (perms [1; 2; 3; 4; 5; 6; 7] ++ perms [2; 3; 4; 5; 6; 7]) -> agrees w7 order = true.
+Proof.
+  intros order H. destruct w7_all_orders as [A B]. rewrite forallb_forall in A, B.
+  apply in_app_or in H as [H|H]; [apply A|apply B]; exact H.
+Qed.
